@@ -5,7 +5,7 @@ use super::types::{honest_image, registry};
 use crate::engine::refmath::{ps_verify, sha3, PkAtoms};
 use crate::engine::wire::{self, Atom, Image, Kind};
 use crate::engine::{enum_check, prop_check, CheckDef, Ctx, Fail, Rec, Tier, R};
-use crate::model::history::MAXB;
+const MAXB: u64 = i64::MAX as u64;
 use bls12_381::Scalar;
 use proptest::prelude::*;
 use serde::{Deserialize, Serialize};
@@ -290,6 +290,13 @@ fn text_oracle(c: &TextCase, rec: &Rec) -> R {
 }
 
 pub fn checks() -> Vec<CheckDef> {
+    let mut v = checks_structured();
+    #[cfg(feature = "full")]
+    v.push(super::fuzzstage::check("C15", "decode_patched", "libfuzzer-decode-patched", 40_000));
+    v
+}
+
+fn checks_structured() -> Vec<CheckDef> {
     vec![
         enum_check(
             "round-trip",
